@@ -1,3 +1,4 @@
+import IceTie.Options
 import IceTie.AgentDefaults
 import IceTie.Prio
 import IceSpec.C17
@@ -209,5 +210,15 @@ theorem C17_code_tcp_offset_default :
 
 example : (IceGen.agentConfig_initWithDefaults_misc true 0 false 5 true)[1]?
     = some (IceModel.Eff.set "agent.tcpPriorityOffset" (IceModel.Val.n 5)) := by decide
+
+/-! ## Tie to the code (T, round 4): `WithTCPPriorityOffset` (`IceGen.T_Options`) -/
+
+/-- the option writes `tcpPriorityOffset` (any uint16, no validation) unless the agent is constructed -/
+theorem C17_code_tcp_offset_option :
+    ∀ constructed offset, IceGen.opt_WithTCPPriorityOffset constructed offset
+      = IceTie.Options.guard constructed ([IceTie.Options.setN "a.tcpPriorityOffset" offset], "nil") :=
+  IceTie.Options.WithTCPPriorityOffset_tie
+
+example : IceGen.opt_WithTCPPriorityOffset false 65535 = ([IceModel.Eff.set "a.tcpPriorityOffset" (IceModel.Val.n 65535)], "nil") := by decide
 
 end IceProps.C17
